@@ -241,6 +241,28 @@ def gen_wellformed(runner, tier, seed):
             fr.append(p6.l3(17, u[:6] + struct.pack(">H", bad) + u[8:]))
             fr.append(eth(SMAC, CMAC, 0x0800, ipv4(C4, S4, 1, icmp_echo(n, 2, d), bad_csum=True)))
     s.send(fr)
+    # UDP length field that lies, TTL / hop limit extremes in the request, TCP data segments with options
+    s = runner.session(cfg_plain(), "wf lying udp length, ttl extremes, tcp options")
+    fr = []
+    for ln in (0, 7, 8, 9, 28, 29, 1000, 65535):
+        fr.append(p4.udp(1234, 3478, stun(1, b"\x05" * 16), length=ln))
+        fr.append(p6.udp(1234, 3478, stun(1, b"\x06" * 16), length=ln))
+    for ttl in (0, 1, 255):
+        fr.append(p4.l3(1, icmp_echo(ttl, 1, b"ttl"), ttl=ttl))
+        fr.append(p6.l3(58, icmp6(p6.cip, p6.sip, 128, 0, b"\0\1\0\1hl"), hlim=ttl))
+        fr.append(p4.l3(6, tcp(p4.cip, p4.sip, 4000 + ttl, 80, 1, 0, F_SYN), ttl=ttl))
+    s.send(fr)
+    flows = []
+    for i, o in enumerate([b"\x01\x01\x08\x0a" + b"\0" * 8, b"\x01" * 40, b"\x02\x04\x05\xb4"]):
+        for pl in (http_request(), ssh_ident(), rpc_call(0x12121212, vers=4, proc=4, tcp=True)):
+            flows.append((r.choice([p4, p6]), 6000 + len(flows), 80, 5, pl, o))
+    syn = s.send([p.tcp(sp, dp, isn, 0, F_SYN, doff=5 + len(o) // 4, options=o) for (p, sp, dp, isn, pl, o) in flows])
+    data = []
+    for (p, sp, dp, isn, pl, o), ob in zip(flows, syn):
+        if ob["out"] == "reply":
+            ck = tcp_fields(bytes(ob["rep"]))["seq"]
+            data.append(p.tcp(sp, dp, isn + 1, (ck + 1) & 0xFFFFFFFF, F_PSH | F_ACK, pl, doff=5 + len(o) // 4, options=o))
+    s.send(data)
     # requests with IPv4 options (IHL 6..15) and with an IHL below 5: the reply has its own header
     s = runner.session(cfg_plain(), "wf requests with ipv4 options")
     fr = []
@@ -446,6 +468,17 @@ def gen_syn(runner, tier, seed):
                     for p in (p4, p6):
                         fr.append(p.tcp(5000, 80, sq, r.randrange(1 << 32) if fl & F_ACK else 0, fl, pay))
         s.send(fr)
+    # SYNs as real stacks send them: with options (MSS, SACK-permitted, timestamps, window scale), data offset 6..15
+    s = runner.session(cfg_plain(), "syn with tcp options")
+    fr = []
+    optsets = [b"\x02\x04\x05\xb4", b"\x02\x04\x05\xb4\x04\x02\x08\x0a" + b"\0" * 8 + b"\x01\x03\x03\x07",
+               b"\x01" * 40, b"\x02\x04\xff\xff\x01\x01\x04\x02", b"\xfe\x28" + b"\0" * 38, b"\x00" * 4]
+    for o in optsets:
+        for p in (p4, p6):
+            for fl in (F_SYN, F_SYN | F_ECE | F_CWR, F_SYN | F_PSH, F_FIN | F_ACK, F_ACK, F_RST):
+                fr.append(p.tcp(r.randrange(65536), r.randrange(65536), r.choice(seqs), r.randrange(1 << 32), fl, b"", doff=5 + len(o) // 4, options=o))
+                fr.append(p.tcp(r.randrange(65536), r.randrange(65536), r.choice(seqs), r.randrange(1 << 32), fl, b"dat", doff=5 + len(o) // 4, options=o))
+    s.send(fr)
     # any port
     s = runner.session(cfg_plain(), "syn ports")
     fr = []
@@ -932,6 +965,17 @@ def gen_http(runner, tier, seed):
                     else:
                         t2[i] = r.choice([b"", b"\r", b"\n", b" ", b"x", b":", b"HTTP/", b"http/1.1", b"\r\r\n", b"HTTP/1.", b"HTTP/.1", b"get", b"FOO", b"\0", b"/"])
                     pl.append(b"".join(t2))
+    # every byte value once in the target, in a header value and in a header name
+    for b in range(256):
+        if b not in (32, 13, 10):
+            pl.append(http_request(r.choice(HTTP_VERBS), b"/a" + bytes([b]) + b"z", eol=r.choice([b"\r\n", b"\n"])))
+        if b not in (13, 10):
+            pl.append(http_request("GET", b"/", headers=[b"X-Val: v" + bytes([b]) + b"w"]))
+        if b not in (13, 10, 58, 32, 9):
+            pl.append(http_request("GET", b"/", headers=[b"N" + bytes([b]) + b"m: v", b"Host: h"]))
+    for maj in (b"0", b"1", b"9", b"10", b"123456789"):
+        for mnr in (b"0", b"1", b"9", b"11", b"000"):
+            pl.append(http_request("GET", b"/v", b"HTTP/" + maj + b"." + mnr))
     # method case, unknown methods, no space, etc.
     pl += [b"get / HTTP/1.1\r\n\r\n", b"Get / HTTP/1.1\r\n\r\n", b"FOO / HTTP/1.1\r\n\r\n", b"GET/ HTTP/1.1\r\n\r\n", b"GETX / HTTP/1.1\r\n\r\n",
            b"GET  / HTTP/1.1\r\n\r\n", b"GET / HTTP/1.1", b"GET / HTTP/1.1\r\n", b"GET / HTTP/1.1\r\nHost: x\r\n", b"GET /", b"GET / ",
@@ -973,6 +1017,13 @@ def gen_dns(runner, tier, seed):
         pl.append(dns_query(r.choice(ids), 0x0100, [nm, nm]))
         pl.append(dns_query(r.choice(ids), 0x0100, [nm, name(r), nm]))
         pl.append(dns_query(r.choice(ids), 0x0100, [nm, nm[1:] or (b"x",), nm + (b"tail",)]))
+    for b in range(1, 256):
+        pl.append(dns_query(b, 0x0100, [(b"l" + bytes([b]) + b"x", b"com")]))
+    for total in range(246, 256):                       # names of total wire length 246..255
+        rest = total - 1 - 64 * 3
+        pl.append(dns_query(total, 0x0100, [(b"a" * 63, b"b" * 63, b"c" * 63, b"d" * (rest - 1))]))
+    for n in (5, 8, 16, 32, 64):
+        pl.append(dns_query(n, 0x0100, [(bytes([97 + i % 26]),) for i in range(n)]))
     # longest names
     pl.append(dns_query(7, 0x0100, [(b"a" * 63, b"b" * 63, b"c" * 63, b"d" * 61)]))
     pl.append(dns_query(7, 0x0100, [(b"a" * 63, b"b" * 63, b"c" * 63, b"d" * 62)]))        # 256: too long
@@ -1159,6 +1210,14 @@ def gen_ssh_ghost(runner, tier, seed):
         term = r.choice([b"\r\n", b"\r\n", b"\r\n", b"\n", b"\r", b"", b"\r\r\n", b"\n\r"])
         tail = r.choice([b"", b"", b"\0\0\0\x14", rb(r, 7)])
         pl.append(ssh_ident(ver, sw, cm, term, tail))
+    for b in range(256):
+        if b not in (0, 10, 13, 32):
+            pl.append(b"SSH-2.0-s" + bytes([b]) + b"w\r\n")
+        if b not in (0, 10, 13):
+            pl.append(b"SSH-1.99-sw c" + bytes([b]) + b"m\r\n")
+    for v in (b"2.0", b"1.99", b"2.00", b"2.0.1", b"2.05", b"1.99.2", b"1.990", b"2.0.0.0.0", b"2.09999"):
+        pl.append(b"SSH-" + v + b"-soft\r\n")
+        pl.append(b"SSH-" + v + b"-soft comment here\r\n")
     pl += [b"SSH-2.0-x\r\n", b"SSH-1.99-x\r\n", b"SSH-2.0-x", b"SSH-2.0-\r\n", b"SSH-2.0\r\n", b"SSH-2.0- \r\n", b"SSH-2.0-a b c\r\n", b"SSH-2.0-a\rb\r\n",
            b"SSH-2.0-a\r\r\n", b"SSH-1.5-x\r\n", b"ssh-2.0-x\r\n", b"SSH-2.0-x\n", b"SSH-2.0-" + b"y" * 300 + b"\r\n", b"SSH-2.0-x\r", b"SSH-2.0-x c\r"]
     for t in range(0, 100 if tier == "quick" else 301):
